@@ -30,6 +30,8 @@ type Program struct {
 	Summ      map[*ssa.Function]*Summary
 	Warnings  []string
 	Lock      map[*ssa.Function]*lockInfo
+	FrozenKeys map[string][]string
+	FrozenErrors []string
 	ContractSource string // "repo" or "mirror"
 }
 
@@ -271,4 +273,23 @@ func (p *Program) LookupType(pkgPath, s string) (types.Type, error) {
 		}
 	}
 	return nil, fmt.Errorf("unknown type %q in %s", s, pkgPath)
+}
+
+// functionalByName finds a function with a "functional" contract by (optionally package-qualified) name.
+func (p *Program) functionalByName(pkg, name string) *ssa.Function {
+	var found *ssa.Function
+	for key, c := range p.Contracts.Funcs {
+		if !c.Functional {
+			continue
+		}
+		short := c.Name
+		if short == name || (strings.Contains(name, ".") && strings.HasSuffix(key, "/"+name)) || key == pkg+"."+name {
+			if fn := p.Funcs[key]; fn != nil {
+				if found == nil || c.Pkg == pkg {
+					found = fn
+				}
+			}
+		}
+	}
+	return found
 }
